@@ -208,6 +208,9 @@ def build(program):
             d['__port_types__'] = tuple(s['port_types'])
         if s.get('tns'):
             d['__tns__'] = s['tns']
+        if s.get('aux'):
+            from spyne.auxproc.sync import SyncAuxProc
+            d['__aux__'] = SyncAuxProc()
         for m in s['methods']:
             kw = dict(m.get('kw') or {})
             ret = m.get('ret')
